@@ -154,7 +154,7 @@ FramingErrors(c0, cmds, wpp, isDT) ==
            IF e.op # 44 THEN "expected memory-write-start"
            ELSE IF wpp = 0 THEN ""
            ELSE IF e.n % wpp # 0 THEN "pixel data is not a whole number of pixels"
-           ELSE IF isDT THEN
+           ELSE IF isDT /\ cmds[i - 2].n = 4 /\ cmds[i - 1].n = 4 THEN
                 LET a == cmds[i - 2].p  b == cmds[i - 1].p
                     ww == Be(a, 3) - Be(a, 1) + 1   wh == Be(b, 3) - Be(b, 1) + 1
                     np == e.n \div wpp
